@@ -366,9 +366,10 @@ class World(object):
                 m["client_version"] = list(ev[4])
             return m
         if k == "list":
-            return {"type": "list"}
+            return {"type": "list", "id": "req"}
         if k == "allocate":
-            return {"type": "allocate"}
+            # real clients put a short client-chosen `id` on every frame; unrelated clients may collide
+            return {"type": "allocate", "id": "req"}
         if k == "claim":
             return {"type": "claim", "nameplate": ev[2]}
         if k == "release":
